@@ -131,10 +131,12 @@ GrowthInc(lpFee, L)      == BDiv(lpFee \otimes Q, L)                  \* L > 0
 GrowthAfter(g, fee, protoRate, L) ==
   IF L \doteq 0 THEN g ELSE WAdd(g, GrowthInc(fee -- ProtoCut(fee, protoRate), L))
 
-(* growth inside [lo, up) given the two outside values and whether each tick is initialized. *)
-GrowthInside(tick, lo, up, global, outLo, outUp) ==
-  LET below == IF tick < lo THEN WSub(global, outLo) ELSE outLo
-      above == IF tick < up THEN outUp ELSE WSub(global, outUp)
+(* growth inside [lo, up) given the two outside values and whether each tick is initialized.
+   By the program's convention an uninitialized lower tick has all growth below it and an
+   uninitialized upper tick none above it (which is what initializing them now would record). *)
+GrowthInside(tick, lo, up, global, initLo, outLo, initUp, outUp) ==
+  LET below == IF ~initLo THEN global ELSE IF tick < lo THEN WSub(global, outLo) ELSE outLo
+      above == IF ~initUp THEN 0 ELSE IF tick < up THEN outUp ELSE WSub(global, outUp)
   IN WSub(WSub(global, below), above)
 
 (* credit of a growth delta to liquidity L: floor(L * delta / 2^Q), dropped (0) when the
